@@ -435,7 +435,7 @@ class LangServer:
             rename_list = [None for _ in var_list]
             import_var_list = []
             for use_mod, use_info in use_dict.items():
-                if type(use_info) is Use:
+                if type(use_info) is Use and use_mod in self.obj_tree:
                     scope = self.obj_tree[use_mod][0]
                     only_list = use_info.rename()
                     tmp_list = child_candidates(
